@@ -74,15 +74,23 @@ def t_case(d, spec_only=False) -> str:
         qs = "[" + "; ".join(t_query(d["queries"][i]) for i in d["its"]) + "]"
         ops = "; ".join((f"INext {nat(o[1])}" if o[0] == "N" else f"IClose {nat(o[1])}") for o in d["ops"])
         return f"({t_world(d['W'])}, {t_attrs(d['A'])}, {qs}, [{ops}])"
+    if k == "rsched":
+        qs = "[" + "; ".join(t_query(q) for q in d["queries"]) + "]"
+        io = "[" + "; ".join(nat(i) for i in d["its"]) + "]"
+        ops = "; ".join((f"INext {nat(o[1])}" if o[0] == "N" else f"IClose {nat(o[1])}") for o in d["ops"])
+        if spec_only:   # the Spec does not know about objects: one query per iterator
+            qs = "[" + "; ".join(t_query(d["queries"][i]) for i in d["its"]) + "]"
+            return f"({t_world(d['W'])}, {t_attrs(d['A'])}, {qs}, [{ops}])"
+        return f"({t_world(d['W'])}, {t_attrs(d['A'])}, {qs}, {io}, [{ops}])"
     raise ValueError(k)
 
 
-CASE_TYPE = {"cache": "cache_case", "hist": "hist_case", "sched": "sched_case"}
-CASE_TYPE_SPEC = {"cache": "scache_case", "hist": "hist_case", "sched": "sched_case"}
-CODE_FN = {"cache": "cache_code_class", "hist": "hist_code", "sched": "sched_code_rep"}
-CODE_FN_SPEC = {"cache": "cache_code_spec", "hist": "hist_code_spec", "sched": "sched_code_spec"}
-MODEL_FN = {"cache": "cache_model", "hist": "hist_model", "sched": "sched_model"}
-SPEC_FN = {"cache": "cache_spec", "hist": "hist_spec", "sched": "sched_spec"}
+CASE_TYPE = {"cache": "cache_case", "hist": "hist_case", "sched": "sched_case", "rsched": "rsched_case"}
+CASE_TYPE_SPEC = {"cache": "scache_case", "hist": "hist_case", "sched": "sched_case", "rsched": "sched_case"}
+CODE_FN = {"cache": "cache_code_class", "hist": "hist_code", "sched": "sched_code_rep", "rsched": "rsched_code"}
+CODE_FN_SPEC = {"cache": "cache_code_spec", "hist": "hist_code_spec", "sched": "sched_code_spec", "rsched": "sched_code_spec"}
+MODEL_FN = {"cache": "cache_model", "hist": "hist_model", "sched": "sched_model", "rsched": "rsched_model"}
+SPEC_FN = {"cache": "cache_spec", "hist": "hist_spec", "sched": "sched_spec", "rsched": "rsched_spec"}
 
 
 # ------------------------------------------------------------------ implementation drivers
@@ -309,7 +317,7 @@ def run_impl(d):
         return impl_cache(d)
     if k == "hist":
         return impl_hist(d)
-    if k == "sched":
+    if k in ("sched", "rsched"):
         return impl_sched(d)
     if k == "extra":
         return impl_extra(d)
@@ -435,11 +443,33 @@ def query_vars(q) -> set:
 
 
 def hist_class(d) -> List[str]:
-    cls = []
-    ev = d["evals"]
-    if any(d["queries"][i].get("rule") is not None and ev.count(i) > 1 for i in set(ev)):
-        cls.append("K_rule_reeval")
-    return cls
+    """whole sequential evaluations: no tolerated class is left (C03-b fixed in krrood a3cd335)"""
+    return []
+
+
+def same_object_overlap(its, ops, log, is_rule) -> bool:
+    """two evaluations of the SAME rule-query object are live at once: both started, neither closed, and -- by the observed
+    log -- neither has ended with StopIteration or an exception yet"""
+    started, dead = set(), set()
+    for k, o in enumerate(ops):
+        i = o[1]
+        if o[0] == "X":
+            dead.add(i)
+            continue
+        if i in dead:
+            continue
+        started.add(i)
+        for j in started - dead:
+            if j != i and its[j] == its[i] and is_rule(its[i]):
+                return True
+        if log is not None and k < len(log) and isinstance(log[k], int):
+            dead.add(i)
+    return False
+
+
+def rsched_class(d, log) -> List[str]:
+    ov = same_object_overlap(d["its"], d["ops"], log, lambda qi: d["queries"][qi].get("rule") is not None)
+    return ["K_rule_interleave"] if ov else []
 
 
 def _dedup(l):
@@ -789,6 +819,63 @@ def empty_and_warm_sched_cases(tier) -> List[dict]:
     return out
 
 
+def gen_rsched_cases(tier, rng) -> List[dict]:
+    """evaluate() iterators of query OBJECTS, rule queries among them (the selector node is shared by the evaluations of one object)"""
+    out = []
+    W = [[10, 11, 12, 13]]
+    A = [[10, 0], [11, 1], [12, 2], [13, 3]]
+    qr = {"sel": [0], "conds": [["C", 0, "ge", 1]], "rule": [["C", 0, "ge", 2]], "form": "entity"}
+    qr2 = {"sel": [0], "conds": [["C", 0, "ge", 0]], "rule": [["C", 0, "le", 1]], "form": "entity"}
+    qp = {"sel": [0], "conds": [["C", 0, "ge", 2]], "form": "entity"}
+    L = 7 if tier == "quick" else 10
+    for name, qs, its in (("rule-same-object", [qr], [0, 0]), ("rule-two-objects", [qr, dict(qr)], [0, 1]),
+                          ("rule-and-plain", [qr, qp], [0, 1]), ("rule-two-rules", [qr, qr2], [0, 1])):
+        for n in range(1, L + 1):
+            for word in itertools.product([0, 1], repeat=n):
+                out.append({"kind": "rsched", "W": W, "A": A, "queries": qs, "its": its, "ops": [["N", i] for i in word],
+                            "share": name, "src": "rule-exhaustive"})
+    # sequential re-evaluation with abandonment at every point, then fresh evaluations of the same object
+    for k in range(0, 5):
+        for how in ("close", "del"):
+            out.append({"kind": "rsched", "W": W, "A": A, "queries": [qr], "its": [0, 0, 0], "close": how,
+                        "ops": [["N", 0]] * k + [["X", 0]] + [["N", 1]] * 5 + [["N", 2]] * 5 + [["N", 0]], "share": "rule-abandon",
+                        "src": "rule-abandon"})
+    n = 500 if tier == "quick" else 6000
+    for _ in range(n):
+        nvars = rng.randint(1, 2)
+        W_, A_ = gen_world(rng, nvars, 4, dup=rng.chance(0.05))
+        queries = []
+        for _ in range(rng.randint(1, 3)):
+            q = gen_query(rng, list(range(nvars)), allow_free_sel=False)
+            if rng.chance(0.6):
+                bound = set()
+                for a in q["conds"]:
+                    bound.add(a[1])
+                    if a[0] == "V":
+                        bound.add(a[3])
+                q["sel"] = sorted(bound)[:2]
+                if len(bound) > 1 and rng.chance(0.4):
+                    q["sel"] = [sorted(bound)[rng.randint(0, len(bound) - 1)]]
+                q["rule"] = [gen_atom(rng, sorted(bound))]
+                q["form"] = "entity"
+            queries.append(q)
+        its = [rng.randint(0, len(queries) - 1) for _ in range(rng.randint(2, 3))]
+        style = rng.choice(["random", "roundrobin", "sequential", "sequential"])
+        ops = []
+        if style == "sequential":
+            for i in range(len(its)):
+                bound_n = _nexts_bound({"W": W_, "queries": queries}, its[i])
+                ops += [["N", i]] * (rng.randint(0, bound_n) if rng.chance(0.4) else bound_n + 1) + [["X", i]]
+        elif style == "roundrobin":
+            ops = [["N", k % len(its)] for k in range(rng.randint(4, 14))]
+        else:
+            for k in range(rng.randint(4, 14)):
+                ops.append(["X", rng.randint(0, len(its) - 1)] if rng.chance(0.1) else ["N", rng.randint(0, len(its) - 1)])
+        out.append({"kind": "rsched", "W": W_, "A": A_, "queries": queries, "its": its, "ops": ops, "foreign": gen_foreign(rng, W_),
+                    "close": rng.choice(["close", "del"]), "share": "rule-random", "src": "rule-random-" + style})
+    return out
+
+
 QUANT_SHAPES = ["exists", "exists_and", "exists2", "forall", "not_exists"]
 
 
@@ -850,9 +937,9 @@ def extra_verdict(d, impl) -> Tuple[str, Any]:
     """-> ('ok' | 'known:<classes>' | 'violation', expected log).  Shapes outside the modelled fragment: the match with a
     known-finding class is INEXACT (no model predicts the wrong output), it is a signature per iterator:
       (K_interleave -- live iterators over a shared variable -- is no longer tolerated: the cache was fixed in 1997e3c)
-      K_rule_reeval : the iterator belongs to a rule query object that has several evaluations in the case; its rows are
-                      [tag, id] with tag in {0,1} and id among the ids of its isolated rows (missing rows, or the conclusion
-                      of the other, suspended evaluation)."""
+      K_rule_interleave : the iterator belongs to a rule query object of which two evaluations are LIVE at the same time in the
+                      case; its rows are [tag, id] with tag in {0,1} and id among the ids of its isolated rows (missing rows,
+                      or the conclusion of the other, suspended evaluation).  Sequential re-evaluation must be exact."""
     if not (isinstance(impl, list) and len(impl) >= 2 and isinstance(impl[0], list) and isinstance(impl[1], list)
             and len(impl[1]) == len(d["its"])):
         return "violation", None
@@ -887,10 +974,10 @@ def extra_verdict(d, impl) -> Tuple[str, Any]:
         if any(e != ERR_RT for e in errs):
             return "violation", exp
         is_rule = d["shapes"][d["its"][i]][0] == "rule"
-        if is_rule and d["its"].count(d["its"][i]) > 1:
+        if is_rule and same_object_overlap(d["its"], d["ops"], log, lambda qi: d["shapes"][qi][0] == "rule"):
             ids = {r[1] for r in iso[i] if isinstance(r, list)}
             if all(len(r) == 2 and r[0] in (0, 1) and r[1] in ids for r in rows):
-                classes.add("K_rule_reeval")
+                classes.add("K_rule_interleave")
                 continue
             return "violation", exp
         return "violation", exp
@@ -912,6 +999,8 @@ def run(tier: str, seed: int, replay=None) -> int:
     rep.assume = [
         "part (c) -- arbitrary next() interleavings of whole evaluations -- is COMPARED, not proved: the coroutine machine is an "
         "executable prediction; scratch state on shared nodes (_is_false_, _eval_parent_, left_evaluated) is not in any model",
+        "the coroutine machine keeps the selector node's coverage memory and _conclusion_ set per query OBJECT ('rsched' cases); where two "
+        "conclusions are applied in set-iteration order it predicts 'tag 0 or 1' (wildcard -5), the only inexact spot",
         "part (b) is proved for the conjunctive fragment (atoms x.a op c / x.a op y.a, selected variables, one optional refinement rule) "
         "over arbitrary domains (an element listed twice is one element: the Spec de-duplicates, as the iterator does since 1997e3c); "
         "other node kinds are only sampled (kind 'extra')",
@@ -930,6 +1019,8 @@ def run(tier: str, seed: int, replay=None) -> int:
                 "truthiness of the domain at every iter(), explicit histories/schedules re-evaluating a query over a value-less variable alone "
                 "and in the outer/inner/selected-only position of a join, 12% empty domains in the random worlds; warm-up schedules: one "
                 "complete evaluation, then every word over two further iterators of the same object / a shared variable (length <=6/9); "
+                "rsched: iterators of query objects with rule queries -- every word over {next0,next1} up to length 7/10 for one rule object twice, "
+                "two rule objects, rule + plain query, two different rules; abandonment at every point; seeded random objects/iterators; "
                 "extra: or_/not_/truthiness/rule shapes and exists/for_all/not_(exists) shapes vs the isolated result of a fresh query, incl. for "
                 "every shape all interleavings (length <=6/8) of two evaluations of the SAME query object after a complete warm-up evaluation. distinct = distinct case description; non-trivial = at least one row is delivered")
     ok_spec, log = core.coq_make(["Base/Sx.vo", "Eql/DomainCacheSpec.vo", "Eql/ReevalSpec.vo", "Eql/ReevalSpecSx.vo"])
@@ -952,7 +1043,7 @@ def run(tier: str, seed: int, replay=None) -> int:
         descrs = [replay["case"]]
     else:
         descrs = (corpus + gen_cache_cases(tier, rng.fork(1)) + gen_hist_cases(tier, rng.fork(2))
-                  + gen_sched_cases(tier, rng.fork(3)) + gen_extra_cases(tier, rng.fork(4)))
+                  + gen_sched_cases(tier, rng.fork(3)) + gen_extra_cases(tier, rng.fork(4)) + gen_rsched_cases(tier, rng.fork(5)))
     impls = []
     for d in descrs:
         try:
@@ -963,7 +1054,7 @@ def run(tier: str, seed: int, replay=None) -> int:
 
     # classification inside Coq, per kind
     codes: Dict[int, int] = {}
-    for kind in ("cache", "hist", "sched"):
+    for kind in ("cache", "hist", "sched", "rsched"):
         idx = [i for i, d in enumerate(descrs) if d["kind"] == kind]
         if not idx:
             continue
@@ -973,7 +1064,7 @@ def run(tier: str, seed: int, replay=None) -> int:
                 cs = core.coq_codes(PROP, HEADER, CASE_TYPE[kind], CODE_FN[kind], pairs, chunk=400, tag=f"cases_{kind}")
             else:
                 rep.note(f"model not available; comparing the implementation with the Spec only ({kind})")
-                cs = [c * (10 if kind != "hist" else 1) for c in
+                cs = [c * (10 if kind in ("cache", "sched") else 1) for c in
                       core.coq_codes(PROP, HEADER_SPEC, CASE_TYPE_SPEC[kind], CODE_FN_SPEC[kind], pairs, chunk=400, tag=f"cases_{kind}")]
         except core.CoqEvalError as e:
             rep.oblige(f"evaluate:{kind}", False, str(e)[:300])
@@ -1015,6 +1106,8 @@ def run(tier: str, seed: int, replay=None) -> int:
         if kind in ("cache", "sched"):
             code, old_fails = divmod(c, 10)
             classes: List[str] = []
+        elif kind == "rsched":
+            code, classes = c, rsched_class(d, impl)
         else:
             code, classes = c, hist_class(d)
         bump(f"{kind}:code{code}")
@@ -1075,11 +1168,13 @@ def run(tier: str, seed: int, replay=None) -> int:
         "a": "proved for the current iterator: C03_cache_any_schedule_repaired (every domain incl. repeated elements, every schedule, any number of "
              "live handles), C03_cache_any_schedule_empty; regression statements about the previous iterator: C03_old_cache_sequential, "
              "C03_refuted_interleave, C03_refuted_dup",
-        "b": "proved on the fragment: C03_reeval_isolated / _idempotent / C03_history_independent (any domains), C03_exists_local_isolated; "
-             "refuted: C03_refuted_rule_reeval (open finding C03-b), C03_refuted_shared_exists_memory",
-        "c": "partial: compared on enumerated and random schedules against an executable prediction, not proved"}
+        "b": "proved on the fragment, rule queries with a refinement INCLUDED (selector memory forgotten at the start of an evaluation, a3cd335): "
+             "C03_reeval_isolated / _idempotent / C03_history_independent (any domains), C03_exists_local_isolated; regression statement about "
+             "the previous code: C03_refuted_rule_reeval; refuted design alternative: C03_refuted_shared_exists_memory",
+        "c": "partial: compared on enumerated and random schedules against an executable prediction, not proved; open finding C03-b2: two LIVE "
+             "evaluations of one rule-query object interfere through the selector node (predicted exactly by the coroutine machine, 'rsched' cases)"}
     samples = []
-    for kind in ("cache", "hist", "sched", "extra"):
+    for kind in ("cache", "hist", "sched", "rsched", "extra"):
         ks = [i for i, d in enumerate(descrs) if d["kind"] == kind and "_file" not in d]
         for i in ks[:: max(1, len(ks) // 2)][:2]:
             samples.append({"case": descrs[i], "impl": impls[i]})
